@@ -79,3 +79,30 @@ Proof. vm_compute. repeat split; reflexivity. Qed.
 Print Assumptions C14_extent_is_hull.
 Print Assumptions C14_nesting.
 Print Assumptions C14_siblings_ordered.
+
+(** Every node class's child list (the arguments of its AST_CHILD_LSTn, regenerated from the
+    headers on every run) names no member twice and names every token, node and list member the
+    class declares — so that the default traversal and the extents reach them. *)
+From PV.gen Require Import Gen_Schema.
+Fixpoint nodupb (l : list nat) : bool :=
+  match l with [] => true | x :: l' => negb (existsb (Nat.eqb x) l') && nodupb l' end.
+Definition class_sane (c : nat * list nat * list nat) : bool :=
+  let '(cls, members, childlist) := c in
+  existsb (Nat.eqb cls) schema_exempt ||
+  (nodupb childlist && forallb (fun m => existsb (Nat.eqb m) childlist || existsb (Nat.eqb m) schema_exempt) members).
+Lemma C14_child_lists_sane : forallb class_sane schema = true.
+Proof. vm_compute. reflexivity. Qed.
+Theorem C14_child_lists : forall cls members childlist, In (cls, members, childlist) schema -> ~ In cls schema_exempt ->
+  NoDup childlist /\ (forall m, In m members -> ~ In m schema_exempt -> In m childlist).
+Proof.
+  intros cls members childlist Hin Hex. pose proof C14_child_lists_sane as H. rewrite forallb_forall in H. specialize (H _ Hin).
+  unfold class_sane in H. apply orb_true_iff in H as [H|H].
+  - exfalso. apply Hex. apply existsb_exists in H as [x [Hx E]]. apply Nat.eqb_eq in E. subst. exact Hx.
+  - apply andb_true_iff in H as [H1 H2]. split.
+    + clear -H1. induction childlist as [|x l IH]; [constructor|]. cbn in H1. apply andb_true_iff in H1 as [A B]. constructor; [|auto].
+      intros Hx. assert (E : existsb (Nat.eqb x) l = true) by (apply existsb_exists; exists x; split; [exact Hx|apply Nat.eqb_refl]). rewrite E in A. discriminate.
+    + intros m Hm Hme. rewrite forallb_forall in H2. specialize (H2 m Hm). apply orb_true_iff in H2 as [H2|H2].
+      * apply existsb_exists in H2 as [x [Hx E]]. apply Nat.eqb_eq in E. subst. exact Hx.
+      * exfalso. apply Hme. apply existsb_exists in H2 as [x [Hx E]]. apply Nat.eqb_eq in E. subst. exact Hx.
+Qed.
+Print Assumptions C14_child_lists.
